@@ -39,6 +39,7 @@ func runC02(c *h.Ctx) {
 	if c.Want("guarded") {
 		guardedRT(c)
 		guardedNamedRT(c)
+		guardedStreamRT(c)
 	}
 	if c.Want("quote") {
 		quoteCheck(c)
@@ -150,7 +151,7 @@ func knownTrigger(cs *rtCase) bool {
 	}
 	f := caseFeatures(cs)
 	return f.bareEmpty || f.namedEnum || f.namedOverSameName || f.namedUnionContainer || f.sameNameTwoTypes ||
-		f.namedInsideContainer || f.unionField || f.namedUnionMember || f.typeValueRebinds
+		f.namedInsideContainer || f.unionField || f.namedUnionMember || f.typeValueRebinds || f.namedOverNamed
 }
 
 func oracleRT(c *h.Ctx) {
